@@ -364,6 +364,22 @@ int apply_low (const char *fun, object_t * ob, int num_arg) {
                */
               return 1;
             }
+
+          /* The function exists but this caller may not call it. Remember where it is (a hit
+           * checks the visibility again); marking it "not in the object" would make later
+           * calls from the driver, call_out() or the object itself fail as well. */
+          entry->oprogp = ob->prog;
+          entry->id = progp->id_number;
+          entry->name = ref_string (sfun);
+          entry->index = index;
+          entry->variable_index_offset = vio;
+          entry->function_index_offset = fio;
+          entry->num_arg = fundefp->num_arg;
+          entry->num_local = fundefp->num_local;
+          entry->progp = prog;
+          pop_n_elems (num_arg);
+          opt_trace (TT_EVAL, "not visible to caller: \"%s\"", fun);
+          return 0;
         }
       /* We have to mark a function not to be in the object */
       entry->id = progp->id_number;
